@@ -27,6 +27,7 @@ fn unit_scenario(direct: Direct, initial_parts: Vec<(u8, u16)>, steps: Vec<Step>
         hold: vec![],
         freeze_polls: false,
         initial_pending: vec![],
+        ds_read_faults: vec![],
     }
 }
 
